@@ -7,6 +7,8 @@ import JPV.Wire
 import JPV.Spec.Semantics
 import JPV.Impl.Parse
 import JPV.Spec.Valid
+import JPV.Spec.NormalizedPath
+import JPV.Impl.Serialize
 namespace JPV.Driver
 open JPV.Wire
 
@@ -197,6 +199,18 @@ def handle (fields : List String) : String :=
         | (.invalid, some _) => "invalid\tgrammatical"
         | (_, none) => "invalid\tungrammatical"
       | _, _, _ => "bad-request"
+  | ["str", q] =>
+      match (readSexp q).bind decQuery with
+      | some q => "str\t" ++ encStr (Impl.strQuery q)
+      | none => "bad-request"
+  | ["canon", v] =>
+      match decStr v with
+      | some s => "canon\t" ++ encStr (Impl.canonicalString s) ++ "\t" ++ encStr (Spec.normalName s)
+      | none => "bad-request"
+  | ["py.repr", t] =>
+      match decJsonAll t with
+      | some (.num x) => "repr\t" ++ encStr (Py.reprFloat x)
+      | _ => "bad-request"
   | ["echo.json", doc] =>
       match decJsonAll doc with
       | some d => encJson d
